@@ -75,6 +75,9 @@ class State:
         self.alloc = core.fresh('alloc', z3.ArraySort(core.RefSort(), z3.BoolSort()))
         self.dead = False
         self.uses_any = False
+        self.setup_len = 0
+        self.frame_guard = None
+        self.modular_frame = None
 
     # ---------------------------------------------------------------- logic
     def assume(self, f, label=None):
@@ -217,6 +220,8 @@ class State:
             self.uses_any = True
 
     def write_field(self, ref, fname, value):
+        if self.frame_guard and fname in self.frame_guard:
+            raise Unsupported('field %s is declared loop-frame (never written) but is written' % fname)
         if fname not in self.fields:
             if self.opts.get('auto_fields', True):
                 self.declare_field(fname, kind_of(value))
